@@ -16,7 +16,7 @@ pub fn def() -> PropDef {
         nontrivial,
         rule: "seeded generation of 1-4 client programs (<=12 submissions each through Addr/OwningAddr/Sender/Caller/WeakSender/WeakCaller, waiting and forcing path, client-side cancellation, 0-2 interval timers as extra traffic, mailbox unbounded or bounded(0..3)) x seeded schedules; non-trivial = two clients had overlapping submission windows on the actor and both submission paths were used; distinct = distinct order of client-op and callback events",
         needed_probes: &["c01_pair_checked", "c01_digest_checked", "send_parked"],
-        quick_runs: 100_000,
+        quick_runs: 200_000,
         thorough_runs: 2_000_000,
         block: 1,
         flavours: &["tokio"],
